@@ -33,11 +33,18 @@ func main() {
 	replay := flag.String("replay", "", "replay a violation file")
 	jobs := flag.Int("jobs", 0, "worker processes (default: min(16, NumCPU))")
 	list := flag.Bool("list", false, "list properties")
+	c19op := flag.String("c19op", "", "scope:index - run one C19 operation in this fresh process (internal)")
 	dump := flag.String("dumpref", "", "dump reference-model pairs for conformance replay (debian|...)")
 	dumpMax := flag.Int("dumpmax", 700, "max universe size for -dumpref")
 	flag.Parse()
 	if r := os.Getenv("VERIF_ROOT"); r != "" {
 		root = r
+	}
+	if *c19op != "" {
+		i := strings.LastIndex(*c19op, ":")
+		idx, _ := strconv.Atoi((*c19op)[i+1:])
+		fmt.Println(c19Op((*c19op)[:i], idx))
+		return
 	}
 	if *dump != "" {
 		dumpRef(*dump, *dumpMax)
@@ -106,8 +113,12 @@ func runWorker(p *core.Prop, fs *findings.Set, tier, spec, out string) int {
 					res.Internalf("unit %s panicked in the checker: %v\n%s", units[ui].Name, r, buf)
 				}
 			}()
+			t0 := time.Now()
 			units[ui].Run(res)
 			res.Units++
+			if d := time.Since(t0); d > 5*time.Second {
+				res.Notef("unit %s took %.1fs", units[ui].Name, d.Seconds())
+			}
 		}()
 	}
 	res.Add("gen_transitions", gen.S.Transitions)
@@ -181,6 +192,11 @@ func runParent(p *core.Prop, fs *findings.Set, tier string, jobs int) int {
 			continue
 		}
 		res.Merge(r)
+	}
+	if p.Post != nil {
+		res.Classifier = fs.Classifier(p.ID)
+		res.CurTier, res.CurUnit, res.CurWorker = tier, "post", ""
+		p.Post(res, tier)
 	}
 	if res.Units != len(units) {
 		res.Internalf("only %d of %d units completed", res.Units, len(units))
